@@ -149,6 +149,17 @@ func (g *c16gen) dict16(depth, ctx int) *Node {
 			k = g.key(depth, used)
 		}
 		v := g.value(depth)
+		if i > 0 && g.equal > 0 && g.r.Chance(g.equal*0.5) {
+			// a second pair that renders exactly like an earlier one, key and value
+			src := n.KV[g.r.Intn(len(n.KV))]
+			hasDict := false
+			src[0].walk(func(x *Node) { hasDict = hasDict || isDict(x) })
+			src[1].walk(func(x *Node) { hasDict = hasDict || isDict(x) || x.K == "placeholder" })
+			if !hasDict && !isNullKind(src[0]) && !isNullKind(src[1]) {
+				n.KV = append(n.KV, [2]*Node{cloneNode(src[0]), cloneNode(src[1])})
+				continue
+			}
+		}
 		if g.r.Chance(g.cfg.NullSides) {
 			v = &Node{K: g.r.Pick([]string{"null", "emptystmt", "emptytag"})}
 		} else if g.late && g.r.Chance(0.3) {
@@ -314,6 +325,7 @@ type modelPair struct {
 	dict   int
 	marker int
 	key    string // atom key
+	count  int    // how many pairs of the Dict render exactly like this one (same key, same marked value)
 }
 
 // liveDicts walks the recipe the way rendering does, skipping pairs with a null side.
@@ -335,7 +347,17 @@ func liveDicts(n *Node, f func(d *Node, pairs []modelPair)) {
 			}
 			var atoms []string
 			nodeAtoms(kv[0], &atoms)
-			pairs = append(pairs, modelPair{dict: n.ID, marker: m, key: atomKey(atoms)})
+			mp := modelPair{dict: n.ID, marker: m, key: atomKey(atoms), count: 1}
+			merged := false
+			for pi := range pairs {
+				if pairs[pi].marker == mp.marker && pairs[pi].key == mp.key && m >= 0 {
+					pairs[pi].count++
+					merged = true
+				}
+			}
+			if !merged {
+				pairs = append(pairs, mp)
+			}
 		}
 		f(n, pairs)
 		if len(n.N) > 0 {
@@ -418,18 +440,30 @@ func checkDictOutput(rec *Recipe, src []byte, noformat bool) *Violation {
 		liveDicts(root, func(d *Node, pairs []modelPair) {
 			var lit *ast.CompositeLit
 			var fps []foundPair
+			total := 0
 			for _, p := range pairs {
 				expectedMarkers[p.marker] = true
 				fs := found[p.marker]
 				switch {
-				case len(fs) == 0:
-					fail("C16-pair-lost", "Dict %d: pair with value marker M_%d (key atoms [%s]) is missing from the output", d.ID, p.marker, p.key)
+				case len(fs) < p.count:
+					fail("C16-pair-lost", "Dict %d: pair with value marker M_%d (key atoms [%s]) should be rendered %d time(s), the output has it %d time(s)", d.ID, p.marker, p.key, p.count, len(fs))
 					return
-				case len(fs) > 1:
-					fail("C16-pair-duplicated", "Dict %d: value M_%d is rendered %d times", d.ID, p.marker, len(fs))
+				case len(fs) > p.count:
+					fail("C16-pair-duplicated", "Dict %d: value M_%d is rendered %d times, the Dict has it %d time(s)", d.ID, p.marker, len(fs), p.count)
 					return
 				}
+				total += p.count
 				fp := fs[0]
+				for _, x := range fs {
+					if x.key != p.key {
+						fp = x
+					}
+					if x.lit != fs[0].lit {
+						fail("C16-pair-misplaced", "Dict %d: pairs are spread over different composite literals", d.ID)
+						return
+					}
+					fps = append(fps, x)
+				}
 				if fp.key != p.key {
 					fail("C16-wrong-key", "Dict %d: value M_%d is attached to key %q (atoms [%s]); its own key has atoms [%s]", d.ID, p.marker, fp.raw, fp.key, p.key)
 					return
@@ -440,13 +474,12 @@ func checkDictOutput(rec *Recipe, src []byte, noformat bool) *Violation {
 					fail("C16-pair-misplaced", "Dict %d: pairs are spread over different composite literals", d.ID)
 					return
 				}
-				fps = append(fps, fp)
 			}
 			if len(fps) == 0 {
 				return
 			}
-			if fps[0].nElts != len(pairs) {
-				fail("C16-extra-elements", "Dict %d: composite literal has %d elements, the Dict has %d non-null pairs", d.ID, fps[0].nElts, len(pairs))
+			if fps[0].nElts != total {
+				fail("C16-extra-elements", "Dict %d: composite literal has %d elements, the Dict has %d non-null pairs", d.ID, fps[0].nElts, total)
 				return
 			}
 			sort.Slice(fps, func(i, j int) bool { return fps[i].idx < fps[j].idx })
@@ -604,13 +637,9 @@ func (propC16) Valid(c *Case) bool {
 			return false
 		}
 	}
+	_ = seen
+	where := map[string]string{} // marker -> "dict id | key sig | value sig" of the pair that owns it
 	c.Recipe.walk(func(n *Node) {
-		if n.K == "id" && markerRe.MatchString(n.S) {
-			if seen[n.S] {
-				ok = false
-			}
-			seen[n.S] = true
-		}
 		if isDict(n) {
 			for _, kv := range n.KV {
 				if isNullKind(kv[1]) {
@@ -618,7 +647,14 @@ func (propC16) Valid(c *Case) bool {
 				}
 				if !(kv[1].K == "call" && len(kv[1].N) > 0 && kv[1].N[0].K == "id" && markerRe.MatchString(kv[1].N[0].S)) {
 					ok = false
+					continue
 				}
+				m := kv[1].N[0].S
+				sig := fmt.Sprintf("%d|%s|%s", n.ID, nodeSig(kv[0]), nodeSig(kv[1]))
+				if old, dup := where[m]; dup && old != sig {
+					ok = false // one marker on two pairs that do not render identically
+				}
+				where[m] = sig
 			}
 		}
 	})
